@@ -104,7 +104,7 @@ def check(case, res):
     nontrivial = bool(set(labels) & set(NONTRIVIAL + ["real_inflight>=2"]))
     return Outcome(v, labels, nontrivial, obs.brief())
 
-TECHNIQUE = "property-based testing (Hypothesis) over graph cases x schedule tapes, virtual-kernel schedule control, deadlock detector as bounded-liveness oracle"
+TECHNIQUE = "property-based testing (Hypothesis) over graph cases x schedule tapes, virtual-kernel schedule control, deadlock detector as bounded-liveness oracle; one case in 16 runs real task processes (order read from one O_APPEND log, no clock)"
 LEVEL_TEXT = ("Randomised search over task graphs, outcome maps and integer schedule tapes; the real executor, "
               "SigchldHelper and CPython Popen run against a simulated process table so a lost completion is a "
               "deterministic DEADLOCK verdict. Not exhaustive: absence of hangs is only shown for explored schedules.")
